@@ -68,7 +68,7 @@ def inline_call(caller, call_bb, callee):
     loff = len(caller.locals)
     boff = len(caller.blocks)
     blocks = copy.deepcopy(caller.blocks)
-    locals_ = list(caller.locals) + [dict(l, inlined_from=callee.name) for l in callee.locals]
+    locals_ = list(caller.locals) + [dict(l, inlined_from=callee.name, inlined_ret=(i == 0)) for i, l in enumerate(callee.locals)]
     call = blocks[call_bb]["term"]
     assert call["k"] == "call"
     target = call.get("target")
@@ -156,6 +156,8 @@ def _defines_variant(blk, ret_local):
             if not s["place"]["proj"] and rv["k"] == "agg" and rv.get("agg") == "adt" and rv.get("adt") in ("std::option::Option", "std::result::Result") \
                     and rv.get("variant_idx") in (0, 1):
                 out = rv["variant_idx"]
+            elif not s["place"]["proj"] and rv["k"] == "use" and "const" in rv["x"] and rv["x"]["const"].get("ty") == "bool" and "int" in rv["x"]["const"]:
+                out = int(rv["x"]["const"]["int"])      # `return true` / `return false`
             else:
                 out = "?"
     t = blk["term"]
@@ -176,6 +178,17 @@ def _discr_arms(blocks, dest, target):
     tt = T["term"]
     if tt["k"] != "switch" or dest["proj"]:
         return None
+    d0 = tt["discr"]
+    pl0 = d0.get("move") or d0.get("copy")
+    if pl0 and pl0["local"] == dest["local"] and not pl0["proj"] and tt.get("ty") == "bool":
+        arms = {}
+        for v in (0, 1):
+            arm = tt["otherwise"]
+            for val, b in tt["targets"]:
+                if int(val) == v:
+                    arm = b
+            arms[v] = arm
+        return arms
     dl = None
     for s in T["stmts"]:
         if s["k"] == "assign" and s["rv"]["k"] == "discr" and s["rv"]["place"]["local"] == dest["local"] and not s["rv"]["place"]["proj"]:
